@@ -180,6 +180,38 @@ func c06Run(r *core.Run) {
 		}
 		return out
 	}
+	// The claim is one-directional ("accepted implies nothing expired").  A rejection is judged only where the
+	// honest-acceptance property speaks: every instant inside ALL validity windows of what is judged at it —
+	// also after issueDate / thisUpdate and after notBefore of certificates that are not on a validated path,
+	// which a verifier is free to insist on.
+	starts := map[int]time.Time{}
+	for _, a := range arts {
+		from := a.notBefore
+		switch a.name {
+		case "tcbinfo-nextUpdate":
+			from = w.Tcb.Issue
+		case "qeidentity-nextUpdate":
+			from = w.QE.Issue
+		case "pckcrl-nextUpdate":
+			from = w.PckCrl.This
+		case "rootcrl-nextUpdate":
+			from = w.RootCrl.This
+		}
+		if from.After(starts[a.field]) || starts[a.field].IsZero() {
+			starts[a.field] = from
+		}
+	}
+	insideAllWindows := func(level int, ts [5]time.Time) bool {
+		for f := 0; f < 5; f++ {
+			if (level < O1 && f != world.TPck) || (level < O2 && f >= world.TPckCrl) {
+				continue
+			}
+			if ts[f].Before(starts[f]) {
+				return false
+			}
+		}
+		return true
+	}
 	check := func(item, kind string, a *c06Artifact, level int, ts [5]time.Time) {
 		want, why := c06Model(arts, poolWin, level, ts)
 		o := verifyRaw(raw, mkOpts(level, w.PCS, w.Pool, inZones(ts)))
@@ -190,6 +222,10 @@ func c06Run(r *core.Run) {
 		}
 		if oddIssue != "" && !got {
 			r.Count("rejected_with_unusual_issue_date(not judged)", 1)
+			return
+		}
+		if !got && !insideAllWindows(level, ts) {
+			r.Count("rejected_before_an_issue_date(not judged)", 1)
 			return
 		}
 		_ = a
